@@ -1,6 +1,6 @@
 (** C09 — correspondence runner: compares the model (Model/Format.v, Model/Btree.v) with what the harness
     (harness/overlay/index/zz_verif_c09_test.go) observed on the implementation. *)
-From ZV Require Import Lib.Base Lib.Varint Generated.FormatConsts Model.Format Model.Btree.
+From ZV Require Import Lib.Base Lib.Varint Generated.FormatConsts Model.Format Model.Btree Model.DocCheck.
 Open Scope N_scope.
 
 Record doc_out := mkDocOut {
@@ -19,7 +19,8 @@ Record obs := mkObs {
 Inductive c09case :=
 | CShard (next : bool) (repos : list (list (list N) * list doc_in)) (o : opaque) (file : list N) (ob : obs)
 | CBtree (bucket v : nat) (keys probes : list N) (outs : list (N * N)) (last : Z)
-| CCodec (kind : N) (xs enc dec : list N).
+| CCodec (kind : N) (xs enc dec : list N)
+| CSeq (sizeMax max : N) (docs : list (list N * bool)) (verdicts : list N).
 
 Definition pair_eqb (a b : N * N) : bool := (fst a =? fst b) && (snd a =? snd b).
 Definition pairs_eqb := list_eqb pair_eqb.
@@ -121,6 +122,7 @@ Definition check_case (c : c09case) : bool :=
                       && match from_sized_deltas16 enc with Ok l => bytes_eqb l dec | _ => false end
     else bytes_eqb (marshal_doc_sections (pair_up xs)) enc
          && match unmarshal_doc_sections enc with Ok l => bytes_eqb (flatten_secs l) dec | _ => false end
+  | CSeq sizeMax max docs verdicts => bytes_eqb (check_seq [] sizeMax max docs) verdicts
   end.
 
 Definition c09_mismatches (cs : list c09case) : list N := bad_indexes check_case cs.
